@@ -268,6 +268,9 @@ Fixpoint flatnonzero_from (i : nat) (sigma : T) (diag S_int : vec) : list nat :=
   end.
 Definition diag_AAT (A : mat) : vec := map (fun row => dot row row) A.
 
+Definition flatten_iIR (sigma : T) (A : mat) (S_int : vec) : list nat :=
+  flatnonzero_from 0 sigma (diag_AAT A) S_int.
+
 Definition active_init (dim : nat) (P : aparams) (parent : vec) (pfit : option fitness) (sigma : T) : astate :=
   mkAS parent pfit sigma (ap_ptarg P) (zeros dim) (identity dim) (identity dim) None []
        (flatnonzero_from 0 sigma (repeat c1 dim) (ap_S_int P)).
@@ -426,24 +429,27 @@ Fixpoint infeasible_all (dim : nat) (P : aparams) (st : astate) (inds : list ain
       (st2, ap :: aps)
   end.
 
+(* first half of update: the rank-one step with the best evaluated offspring (if any) *)
+Definition active_update_rank1 (P : aparams) (st : astate) (pop : list aind) : astate :=
+  let valid_pop := filter (fun i => f_valid (ai_fit i)) pop in
+  match sort_desc (fun a b => c_lt (ai_fit a) (ai_fit b)) valid_pop with
+  | [] => st
+  | (best :: _) as sorted =>
+      let lambda_succ := if has_fitness st
+                         then count_if (fun i => parent_le st (ai_fit i)) sorted
+                         else length sorted in
+      rank1update P st best (ofnat lambda_succ / ofnat (length sorted))
+  end.
+
 (* update; returns the state and the A_prime matrices of the constraint updates *)
 Definition active_update (dim : nat) (P : aparams) (st : astate) (pop : list aind) (invs : list (option mat))
   : astate * list (option mat) :=
-  let valid_pop := filter (fun i => f_valid (ai_fit i)) pop in
   let invalid_pop := filter (fun i => negb (f_valid (ai_fit i))) pop in
-  let st1 :=
-    match sort_desc (fun a b => c_lt (ai_fit a) (ai_fit b)) valid_pop with
-    | [] => st
-    | (best :: _) as sorted =>
-        let lambda_succ := if has_fitness st
-                           then count_if (fun i => parent_le st (ai_fit i)) sorted
-                           else length sorted in
-        rank1update P st best (ofnat lambda_succ / ofnat (length sorted))
-    end in
+  let st1 := active_update_rank1 P st pop in
   let '(st2, aps) := infeasible_all dim P st1 invalid_pop invs in
   (mkAS (as_parent st2) (as_pfit st2) (as_sigma st2) (as_psucc st2) (as_pc st2) (as_A st2)
         (as_invA st2) (as_cvecs st2) (as_anc st2)
-        (flatnonzero_from 0 (as_sigma st2) (diag_AAT (as_A st2)) (ap_S_int P)), aps).
+        (flatten_iIR (as_sigma st2) (as_A st2) (ap_S_int P)), aps).
 
 (* one round: draws (z, us, gs, pm), oracle values invs; evalfit : genotype -> fitness *)
 Record adraws := mkAD { ad_z : list vec; ad_us : list T; ad_gs : list T; ad_pm : list (list Z);
